@@ -262,6 +262,18 @@ impl SecondaryStorage {
         column_descs: &[ColumnCatalog],
         ordered_pk_ids: &[ColumnId],
     ) -> StorageResult<()> {
+        // Two concurrent CREATE TABLE of the same name would otherwise both be logged before
+        // either is applied to the catalog: the second one then fails, but its manifest entry
+        // stays and the database cannot be opened again (duplicated table).
+        let _guard = self.create_table_lock.lock().await;
+        let schema = self
+            .catalog
+            .get_schema_by_id(schema_id)
+            .ok_or_else(|| TracedStorageError::not_found("schema", schema_id))?;
+        if schema.get_table_by_name(table_name).is_some() {
+            return Err(TracedStorageError::duplicated("table", table_name));
+        }
+
         let entry = CreateTableEntry {
             schema_id,
             table_name: table_name.to_string(),
